@@ -1,8 +1,9 @@
 """C15 -- every queue storage backend behaves like the same simple store.
 
-The real backends (DictStorage; DiskStorage on real pyaio; RedisStorage through the real redis-py
-client against vf.miniredis.MiniRedis; CloudStorage over vf.memstore.MemObjectStore +- MemMsgQueue)
-execute generated operation histories; every answer is compared with ``RefStore`` below.
+The real backends (DictStorage on its own dicts, on caller-supplied dicts and on two ``shelve``
+files; DiskStorage on real pyaio; RedisStorage through the real redis-py client against
+vf.miniredis.MiniRedis; CloudStorage over vf.memstore.MemObjectStore +- a message queue) execute
+generated operation histories; every answer is compared with ``RefStore`` below.
 
 A case is a list of *tracks*; every message belongs to exactly one track, so the sub-history of
 each id is sequential and its answers (get / increment_attempts / get-after-remove) are judged
@@ -12,14 +13,38 @@ all running concurrently.  ``load()`` answers are judged with an interval rule o
 be listed only if it was possibly live at some moment of the call, and the timestamp listed must be
 one the id possibly had at some moment of the call.
 
+Strata added by the coverage audit (each has its own counter / REQUIRED_HITS entry):
+  * several delivered-marking rounds per message, indexes relative to what get() currently returns
+    (the documented meaning), passed as a list or as a set (what Queue passes);
+  * restart ('reopen': a fresh storage object over the same substrate takes over) and two live
+    storage objects over one substrate used alternately;
+  * operations on removed ids and on an id no write returned: they may raise or return, but the id
+    must stay gone (get raises, load does not list it) and nothing else may change;
+  * stepped load(): the harness pulls load() item by item and runs other operations of the history
+    between two items (deterministic, replayable form of "load while other calls are in flight");
+  * wait(): backends without a notification channel must raise NotImplementedError (what
+    Queue._wait_store relies on); redis / cloud+mq must announce every write exactly once, with the
+    id write() returned and the timestamp it was given;
+  * the id-collision branch of write(): the uuid source of dict / disk / redis is made to offer the
+    id of a live message first;
+  * odd envelopes (no / 40 / 300 recipients, duplicate and non-ASCII addresses, null and non-ASCII
+    sender, no message at all, 300 kB bodies, custom attributes, client dict with odd values) and
+    odd timestamps (int, 0, negative, far future, equal for several messages, 17 significant digits);
+  * redis ids passed as bytes; DictStorage.get_info(); cloud+mq whose queue_message() always fails
+    (write() must still store the message and return its id).
+
 Events that refute: a write returning an id seen before; get() answering another sender / content /
-undelivered-recipient list / attempt count than the reference; increment_attempts() returning
-another number; load() listing a removed or unknown id, missing a live one, listing one twice or
-with a timestamp it did not have; get() after remove() returning; any operation of the interface
-raising on a live id.
+undelivered-recipient list / attempt count / client / receiver / timestamp attribute than the
+reference; increment_attempts() returning another number; load() listing a removed or unknown id,
+missing a live one, listing one twice or with a timestamp it did not have; get() after remove() (or
+of an unknown id) returning; any operation of the interface raising on a live id; wait() announcing
+something no write returned, announcing twice, never announcing, or not raising NotImplementedError
+on a backend without notifications.
 """
 import os
+import uuid
 import random
+import shelve
 import shutil
 import tempfile
 import itertools
@@ -34,49 +59,85 @@ from slimta.queue.dict import DictStorage
 from slimta.diskstorage import DiskStorage
 from slimta.redisstorage import RedisStorage
 from slimta.cloudstorage import CloudStorage
+import slimta.queue.dict as _mod_dict
+import slimta.diskstorage as _mod_disk
+import slimta.redisstorage as _mod_redis
 
 PROPERTY = 'C15'
 LEVEL = 'exploration'
-LEVEL_TEXT = ('Real DictStorage, DiskStorage(pyaio), RedisStorage(redis-py -> in-process MiniRedis) and '
-              'CloudStorage(in-memory object store, strict aws-like and lenient, with/without message queue) '
-              'run seeded histories of 5..40 operations over 1..4 messages, sequentially and (disk, redis, '
-              'cloud) with one concurrent greenlet per message; every answer is compared with a 25-line '
-              'reference store, load() with an interval rule. Held = held on the histories reported; real '
-              'redis / S3 servers and multi-round delivered marking are outside.')
+LEVEL_TEXT = ('Real DictStorage (own dicts, supplied dicts, shelve files with and without writeback), '
+              'DiskStorage(pyaio), RedisStorage(redis-py -> in-process MiniRedis) and CloudStorage(in-memory '
+              'object store, strict aws-like and lenient, with/without message queue) run seeded histories of '
+              '5..40 operations over 1..4 messages, sequentially and (disk, redis, cloud) with one concurrent '
+              'greenlet per message; restarts and two storage objects over one substrate, several '
+              'delivered-marking rounds, operations on removed / unknown ids, stepped load(), wait(), forced id '
+              'collisions, odd envelopes and timestamps are part of the histories; every answer is compared '
+              'with a 30-line reference store, load() with an interval rule. Held = held on the histories '
+              'reported; real redis / S3 servers are outside.')
 LEVEL_NOTE = ('Trusted: RefStore, the interval rule for load(), MiniRedis (RESP3, Redis typing rules), '
               'MemObjectStore (mirrors slimta.cloudstorage.aws.SimpleStorageService conventions; the real '
-              'adapter cannot be imported: boto does not import on this interpreter).')
+              'adapter cannot be imported: boto does not import on this interpreter), the pass-through uuid '
+              'shim bound to the name `uuid` of the dict / disk / redis backend modules (identical to the uuid '
+              'module except when a collision is being offered).')
 TECHNIQUE = ('runtime monitoring: differential comparison of every backend answer with a reference store over '
              'seeded operation histories; per-id sequential sub-histories under overlapping greenlets')
-RULE = ('case = (backend configuration, mode, 1..4 message specs, tracks of operations drawn from write, get, '
-        'load, set_timestamp, increment_attempts, set_recipients_delivered (at most one call per message, a '
-        'list of indexes), remove, get-after-remove, and for redis drain = wait() until the notification list '
-        'is empty); each backend call = one evaluation. After the tracks a final sweep gets every id and '
-        'loads (redis: load, drain, load). non-trivial & distinct = distinct (backend, mode, operation '
-        'sequence) with >= 2 messages written and either a delivered-marking followed by a get of that '
-        'message or a remove followed by a load / get-after-remove')
-ASSUMPTIONS = ['set_recipients_delivered is called once per message with a list of indexes (what the Queue '
-               'passes -- a set, several rounds -- is judged by C03)',
+RULE = ('case = (backend configuration, mode, one or two storage objects, 1..4 message specs, tracks of '
+        'operations drawn from write, get, load, stepped load with nested operations, set_timestamp, '
+        'increment_attempts, set_recipients_delivered (up to 3 rounds per message, list or set of indexes '
+        'relative to the current get()), remove, get-after-remove, one kind of operation on removed ids per '
+        'message and one kind on an unknown id per case, reopen (restart), wait (drain of the notification '
+        'channel for redis / cloud+mq, NotImplementedError probe elsewhere), get_info); each backend call = '
+        'one evaluation. After the tracks a final sweep gets every id and loads (redis, cloud+mq: load, drain, '
+        'load). non-trivial & distinct = distinct (backend, mode, operation sequence) with >= 2 messages '
+        'written and either a delivered-marking followed by a get of that message or a remove followed by a '
+        'load / get-after-remove')
+ASSUMPTIONS = ['set_recipients_delivered indexes refer to the recipients get() currently returns (QueueStorage '
+               'docstring); the property text promises one round per message, rounds 2..3 are judged by the '
+               'docstring meaning',
                'ids are compared after bytes->str normalisation; a type difference between write() and load() '
                'ids is recorded (counters id-type-mismatch-write-vs-load/*), not judged',
                'MiniRedis and MemObjectStore are faithful to Redis / the aws adapter for the commands used',
                'in overlap mode the interleaving of disk and redis operations depends on OS timing; the oracle '
                'is exact for every interleaving, but a replay may schedule differently',
-               'any exception type is accepted for get() after remove()']
-FAMS = ['dict', 'disk', 'redis', 'cloud-strict', 'cloud-lenient']
+               'any exception type is accepted for get() after remove() / of an unknown id, and any outcome '
+               '(raise or return) for the other operations on such an id -- only the later answers are judged',
+               'DictStorage operations do not yield: a stepped load() of the dict backends is interleaved only '
+               'with operations that do not add or remove messages (a dict changing size under its own '
+               'iterator raises RuntimeError; Queue never interleaves there)',
+               'an operation on a removed / unknown id may make that id visible to a load() that overlaps this '
+               'very operation (counter transient-listing-during-op-on-gone-id/*); once the operation has '
+               'returned the id must be gone',
+               'custom (undocumented) envelope attributes are counted (custom-attr-kept / -lost), not judged',
+               'cloud+mq: one wait() consumer at a time (at-least-once redelivery to competing consumers is '
+               'outside)']
+FAMS = ['dict', 'dict-shelve', 'disk', 'redis', 'cloud-strict', 'cloud-lenient']
 OVERLAP_FAMS = ['disk', 'redis', 'cloud-strict', 'cloud-lenient']
+TWO_FAMS = ['dict', 'disk', 'redis', 'cloud-strict', 'cloud-lenient']
+COLLIDE_FAMS = ['dict', 'dict-shelve', 'disk', 'redis']
+DICT_FAMS = ['dict', 'dict-shelve']
 REQUIRED_HITS = (['%s/%s' % (h, f) for f in FAMS
                   for h in ('get-compared', 'load-judged', 'increment-judged', 'gone-judged',
-                            'distinct-id-judged', 'other-ids-undisturbed')] +
+                            'distinct-id-judged', 'other-ids-undisturbed', 'multi-round-get-compared',
+                            'set-arg-marking', 'restart-get-compared', 'stepped-load-judged',
+                            'op-on-removed-id', 'op-on-unknown-id', 'wait-judged', 'odd-envelope-compared',
+                            'odd-timestamp-load-judged')] +
                  ['overlap-load-judged/%s' % f for f in OVERLAP_FAMS] +
                  ['overlapped-ops/%s' % f for f in OVERLAP_FAMS] +
-                 ['load-with-notifications-pending/redis', 'load-after-drain/redis'])
+                 ['two-objects-get-compared/%s' % f for f in TWO_FAMS] +
+                 ['id-collision-offered/%s' % f for f in COLLIDE_FAMS] +
+                 ['get-info-judged/%s' % f for f in DICT_FAMS] +
+                 ['load-with-notifications-pending/redis', 'load-after-drain/redis', 'bytes-id-calls/redis',
+                  'announcements-judged/redis', 'announcements-judged/cloud-strict',
+                  'announcements-judged/cloud-lenient', 'write-with-failing-message-queue/cloud-strict',
+                  'write-with-failing-message-queue/cloud-lenient'])
 SHARDS = {'quick': 8, 'thorough': 16}
-BUDGET = {'quick': 45, 'thorough': 800}
+BUDGET = {'quick': 50, 'thorough': 800}
 
 # (family, cfg, mode, cases at quick, cases at thorough)
 PLAN = [
     ('dict', {}, 'seq', 1600, 20000),
+    ('dict-shelve', {'writeback': False}, 'seq', 320, 6000),
+    ('dict-shelve', {'writeback': True}, 'seq', 240, 4000),
     ('disk', {}, 'seq', 320, 12000),
     ('disk', {}, 'overlap', 240, 8000),
     ('redis', {'delay': False}, 'seq', 200, 8000),
@@ -93,6 +154,10 @@ PLAN = [
     ('cloud-lenient', {'mq': True}, 'overlap', 300, 10000),
 ]
 
+XOPS = ['set_timestamp', 'increment_attempts', 'set_recipients_delivered', 'remove']
+SHARED_TS = 1500000000.0
+UNKNOWN_ID = 'feedfacefeedfacefeedfacefeedface'
+
 
 # ------------------------------------------------------------------ the reference (trusted)
 
@@ -102,12 +167,15 @@ class RefStore(object):
 
     def write(self, id, sender, content, rcpts, ts):
         self.m[id] = {'sender': sender, 'content': content, 'rcpts': list(rcpts), 'deliv': set(),
-                      'attempts': 0, 'ts': ts}
+                      'attempts': 0, 'ts': ts, 'rounds': 0}
+
+    def left(self, id):
+        m = self.m[id]
+        return [i for i in range(len(m['rcpts'])) if i not in m['deliv']]
 
     def get(self, id):
         m = self.m[id]                      # KeyError = gone
-        left = [r for i, r in enumerate(m['rcpts']) if i not in m['deliv']]
-        return m['sender'], m['content'], left, m['attempts']
+        return m['sender'], m['content'], [m['rcpts'][i] for i in self.left(id)], m['attempts']
 
     def set_timestamp(self, id, ts):
         self.m[id]['ts'] = ts
@@ -117,7 +185,9 @@ class RefStore(object):
         return self.m[id]['attempts']
 
     def set_recipients_delivered(self, id, idx):
-        self.m[id]['deliv'].update(idx)
+        left = self.left(id)                # indexes refer to what get() returns now
+        self.m[id]['deliv'].update(left[j] for j in idx)
+        self.m[id]['rounds'] += 1
 
     def remove(self, id):
         del self.m[id]
@@ -128,61 +198,152 @@ class RefStore(object):
 
 # ------------------------------------------------------------------ generation
 
-def gen_track(rnd, ks, nops, fam, drain):
+def ts_value(rnd):
+    c = rnd.randrange(12)
+    if c < 4:
+        return rnd.random() * 2e9
+    if c < 6:
+        return float(rnd.randrange(10 ** 9))
+    if c == 6:
+        return rnd.randrange(10 ** 9)                 # int
+    if c == 7:
+        return rnd.choice([0, 0.0, -5.5, -1])         # falsy / before the epoch
+    if c == 8:
+        return SHARED_TS                              # equal for several messages
+    if c == 9:
+        return rnd.choice([4102444800.125, 1e12, 32503680000])   # far future
+    if c == 10:
+        return rnd.choice([0.1 + 0.2, 1e-7, 1234567890.1234567, 2.0 ** 52 + 0.5])
+    return 1234567890.0 + rnd.randrange(3)            # near-equal / equal small set
+
+
+def ts_class(v):
+    if isinstance(v, int) and not isinstance(v, bool):
+        return 'int' if v > 0 else 'int-nonpositive'
+    if v <= 0:
+        return 'nonpositive'
+    if v == SHARED_TS:
+        return 'shared'
+    if v >= 4e9:
+        return 'far-future'
+    if v < 1:
+        return 'tiny'
+    return 'plain'
+
+
+def gen_track(rnd, ks, nops, fam, drain, mode, msgs, unknown_xop):
     """ops for one track owning messages ks; valid w.r.t. liveness by construction."""
     state = dict((k, 'new') for k in ks)
-    delivd = set()
-    ops = []
-    while len(ops) < nops:
+    rounds = dict((k, 0) for k in ks)
+    base = ['write', 'write', 'get', 'get', 'get', 'load', 'load', 'ts', 'ts', 'inc', 'inc',
+            'deliv', 'deliv', 'deliv', 'remove', 'gone', 'drain', 'xop', 'xop', 'xunk', 'sload', 'wait',
+            'info', 'reopen']
+
+    # inside a stepped load: mostly operations that change what a listing in progress would find
+    nest_base = ['remove', 'remove', 'remove', 'write', 'write', 'ts', 'ts', 'inc', 'get', 'deliv', 'xop', 'gone']
+
+    def one(nested):
         live = [k for k in ks if state[k] == 'live']
         gone = [k for k in ks if state[k] == 'gone']
         new = [k for k in ks if state[k] == 'new']
-        if not live and not gone:
+        if not live and not gone and new and not nested:
             op = 'write'
         else:
-            op = rnd.choice(['write', 'write', 'get', 'get', 'get', 'load', 'load', 'ts', 'ts', 'inc', 'inc',
-                             'deliv', 'deliv', 'remove', 'gone', 'drain'])
+            op = rnd.choice(nest_base if nested else base)
+        if nested and (op in ('load', 'sload', 'reopen', 'drain', 'wait', 'info') or
+                       (fam in DICT_FAMS and op in ('write', 'remove'))):
+            return None
         if op == 'write' and new:
             k = new[0]
             state[k] = 'live'
-            ops.append(['write', k, rnd.random() * 2e9])
-        elif op == 'get' and live:
-            ops.append(['get', rnd.choice(live)])
-        elif op == 'load':
-            ops.append(['load'])
-        elif op == 'ts' and live:
-            ops.append(['ts', rnd.choice(live), rnd.choice([rnd.random() * 2e9, float(rnd.randrange(10 ** 9))])])
-        elif op == 'inc' and live:
-            ops.append(['inc', rnd.choice(live)])
-        elif op == 'deliv' and [k for k in live if k not in delivd]:
-            k = rnd.choice([k for k in live if k not in delivd])
-            delivd.add(k)
-            ops.append(['deliv', k, rnd.random(), rnd.random()])   # resolved against the recipient count
-        elif op == 'remove' and live:
+            return ['write', k, ts_value(rnd)]
+        if op == 'get' and live:
+            return ['get', rnd.choice(live)]
+        if op == 'load':
+            return ['load']
+        if op == 'ts' and live:
+            return ['ts', rnd.choice(live), ts_value(rnd)]
+        if op == 'inc' and live:
+            return ['inc', rnd.choice(live)]
+        if op == 'deliv' and [k for k in live if rounds[k] < 3]:
+            k = rnd.choice([k for k in live if rounds[k] < 3])
+            rounds[k] += 1
+            # fractions resolved against the number of recipients left when the op runs
+            return ['deliv', k, rnd.random(), rnd.random(), rnd.choice(['list', 'set', 'set'])]
+        if op == 'remove' and live:
             k = rnd.choice(live)
             state[k] = 'gone'
-            ops.append(['remove', k])
-        elif op == 'gone' and gone:
-            ops.append(['gone', rnd.choice(gone)])
-        elif op == 'drain' and drain:
-            ops.append(['drain'])
+            return ['remove', k]
+        if op == 'gone' and gone:
+            return ['gone', rnd.choice(gone)]
+        if op == 'drain' and drain:
+            return ['drain']
+        if op == 'xop' and gone:
+            k = rnd.choice(gone)
+            return ['xop', msgs[k]['xop'], k]
+        if op == 'xunk':
+            return ['xop', rnd.choice([unknown_xop, unknown_xop, 'get']), 'unknown']
+        if op == 'wait':
+            if fam == 'redis' or (fam.startswith('cloud') and drain is not None):
+                return ['drain'] if drain else None
+            return ['wait-ni']
+        if op == 'info':
+            return ['info']
+        if op == 'reopen' and mode == 'seq':
+            return ['reopen']
+        if op == 'sload' and (live or gone):
+            nest = []
+            for _ in range(rnd.randrange(1, 5)):
+                o = one(True)
+                if o is not None:
+                    nest.append(o)
+            return ['sload', nest]
+        return None
+
+    ops = []
+    guard = 0
+    while len(ops) < nops and guard < 5000:
+        guard += 1
+        o = one(False)
+        if o is not None:
+            ops.append(o)
     return ops
+
+
+def gen_msg(rnd):
+    size = rnd.choice([0, 10, 10, 200, 200, 3000, 20000 if rnd.random() < 0.3 else 500,
+                       70000 if rnd.random() < 0.15 else 50, 300000 if rnd.random() < 0.04 else 100])
+    nrcpt = rnd.choice([1, 1, 2, 3, 4, 5, 5, 0, 40 if rnd.random() < 0.3 else 2, 300 if rnd.random() < 0.1 else 3])
+    return {'nrcpt': nrcpt, 'size': size, 'hdr8': rnd.random() < 0.2,
+            'rk': rnd.choice(['plain', 'plain', 'plain', 'dup', 'utf8']),
+            'sk': rnd.choice(['plain', 'plain', 'plain', 'null', 'utf8']),
+            'extra': rnd.random() < 0.25, 'nomsg': rnd.random() < 0.06,
+            'xop': rnd.choice(XOPS)}
 
 
 def gen_case(fam, cfg, mode, rnd):
     nm = rnd.choice([1, 2, 2, 3, 3, 4, 4]) if mode == 'seq' else rnd.choice([2, 3, 4, 4])
-    msgs = []
-    for k in range(nm):
-        size = rnd.choice([0, 10, 10, 200, 200, 3000, 20000 if rnd.random() < 0.3 else 500,
-                           70000 if rnd.random() < 0.15 else 50])
-        msgs.append({'nrcpt': rnd.choice([1, 1, 2, 3, 4, 5]), 'size': size, 'hdr8': rnd.random() < 0.2})
+    msgs = [gen_msg(rnd) for _ in range(nm)]
+    unknown_xop = rnd.choice(XOPS)
+    # drain: True = this track drains the notification channel, False = it has one but another track
+    # drains it, None = the backend has none
+    has_chan = fam == 'redis' or (fam.startswith('cloud') and cfg.get('mq'))
     if mode == 'seq':
-        tracks = [gen_track(rnd, list(range(nm)), rnd.randrange(5, 41), fam, fam == 'redis')]
+        tracks = [gen_track(rnd, list(range(nm)), rnd.randrange(5, 41), fam, True if has_chan else None,
+                            mode, msgs, unknown_xop)]
     else:
         per = max(3, rnd.randrange(5, 41) // nm)
-        tracks = [gen_track(rnd, [k], rnd.randrange(3, per + 3), fam, fam == 'redis' and k == 0)
+        tracks = [gen_track(rnd, [k], rnd.randrange(3, per + 3), fam,
+                            (k == 0) if has_chan else None, mode, msgs, unknown_xop)
                   for k in range(nm)]
-    case = {'fam': fam, 'cfg': dict(cfg), 'mode': mode, 'msgs': msgs, 'tracks': tracks}
+    case = {'fam': fam, 'cfg': dict(cfg), 'mode': mode, 'msgs': msgs, 'tracks': tracks,
+            'two': fam in TWO_FAMS and rnd.random() < 0.35, 'obj_seed': rnd.randrange(1 << 30),
+            'given_dicts': fam == 'dict' and rnd.random() < 0.5,
+            'bytes_ids': fam == 'redis' and rnd.random() < 0.25,
+            # the message queue refuses every announcement: write() must still store and return the id
+            'mq_fail': bool(fam.startswith('cloud') and cfg.get('mq') and rnd.random() < 0.12),
+            'collide': ([k for k in range(1, nm) if rnd.random() < 0.5]
+                        if mode == 'seq' and fam in COLLIDE_FAMS and rnd.random() < 0.4 else [])}
     if cfg.get('delay'):
         case['delay_seed'] = rnd.randrange(1 << 30)
     return case
@@ -204,12 +365,59 @@ def gen_cases(tier, seed, shard, nshards):
             for _ in range(min(left[si], 8 if p[0] in ('dict',) or p[0].startswith('cloud') else 1)):
                 left[si] -= 1
                 case = gen_case(p[0], p[1], p[2], rnd)
-                if n % nshards == shard:
+                # every plan row deals its own cases round the shards (a common counter can fall in
+                # step with the turn length and send all disk cases to one worker)
+                if (left[si] + si) % nshards == shard:
                     yield case
                 n += 1
 
 
 # ------------------------------------------------------------------ backends
+
+class UuidShim(object):
+    """Stands where the backend modules expect the uuid module; identical to it unless the harness
+    queued an id to be offered first (to reach write()'s collision branch)."""
+
+    class _Forced(object):
+        def __init__(self, h):
+            self.hex = h
+
+        def __str__(self):
+            return self.hex
+
+    def __init__(self):
+        self.forced = []
+        self.offered = 0
+        self.rnd = None
+
+    def uuid4(self):
+        if self.forced:
+            self.offered += 1
+            return self._Forced(self.forced.pop(0))
+        if self.rnd is not None:       # per-case seeded ids: a replay meets the same directory / key order
+            return uuid.UUID(int=self.rnd.getrandbits(128), version=4)
+        return uuid.uuid4()
+
+    def __getattr__(self, name):
+        return getattr(uuid, name)
+
+
+SHIM = UuidShim()
+for _m in (_mod_dict, _mod_disk, _mod_redis):
+    _m.uuid = SHIM
+
+
+class MQ15(MemMsgQueue):
+    """MemMsgQueue that tells when a consumer is parked in sleep()."""
+    sleepers = 0
+
+    def sleep(self):
+        self.sleepers += 1
+        try:
+            MemMsgQueue.sleep(self)
+        finally:
+            self.sleepers -= 1
+
 
 _MR = [None]
 _SEQ = itertools.count()
@@ -234,16 +442,48 @@ def shard_cleanup():
 
 
 def make_backend(case):
-    """-> (storage, cleanup, extra)"""
+    """-> (factory, cleanup, extra); factory() = a fresh storage object over the same substrate"""
     fam, cfg = case['fam'], case['cfg']
     if fam == 'dict':
-        return DictStorage(), (lambda: None), {}
+        first = []
+
+        def factory():
+            if not first:
+                first.append(DictStorage({}, {}) if case.get('given_dicts') else DictStorage())
+                return first[0]
+            return DictStorage(first[0].env_db, first[0].meta_db)
+        return factory, (lambda: None), {}
+    if fam == 'dict-shelve':
+        d = os.path.join(_scratch(), 's%d' % next(_SEQ))
+        os.makedirs(d)
+        opened = []
+
+        def close():
+            for s in opened:
+                s.close()
+            del opened[:]
+
+        def factory():
+            close()                       # a shelve file has one owner at a time: restart = close + open
+            wb = bool(cfg.get('writeback'))
+            opened.extend([shelve.open(os.path.join(d, 'env'), writeback=wb),
+                           shelve.open(os.path.join(d, 'meta'), writeback=wb)])
+            return DictStorage(opened[0], opened[1])
+
+        def cleanup():
+            try:
+                close()
+            finally:
+                shutil.rmtree(d, ignore_errors=True)
+        return factory, cleanup, {}
     if fam == 'disk':
         d = os.path.join(_scratch(), 'd%d' % next(_SEQ))
         for x in ('env', 'meta', 'tmp'):
             os.makedirs(os.path.join(d, x))
-        st = DiskStorage(os.path.join(d, 'env'), os.path.join(d, 'meta'), os.path.join(d, 'tmp'))
-        return st, (lambda: shutil.rmtree(d, ignore_errors=True)), {}
+
+        def factory():
+            return DiskStorage(os.path.join(d, 'env'), os.path.join(d, 'meta'), os.path.join(d, 'tmp'))
+        return factory, (lambda: shutil.rmtree(d, ignore_errors=True)), {}
     if fam == 'redis':
         if _MR[0] is None:
             _MR[0] = MiniRedis()
@@ -252,7 +492,12 @@ def make_backend(case):
         # colons, no colon at all, non-alphanumeric end) -- the ids load() lists must not depend on it
         n = next(_SEQ)
         prefix = ('c15-%d-%d:', 'c15:%d:%d:', 'c15-%d-%d-', 'c15.%d.%d/')[n % 4] % (os.getpid(), n)
-        st = RedisStorage('127.0.0.1', mr.port, prefix=prefix)
+        made = []
+
+        def factory():
+            st = RedisStorage('127.0.0.1', mr.port, prefix=prefix)
+            made.append(st)
+            return st
         if 'delay_seed' in case:
             drnd = random.Random(case['delay_seed'])
             mr.delay = lambda c: drnd.choice((0, 0, 0, 0.0002, 0.0005, 0.001))
@@ -261,33 +506,73 @@ def make_backend(case):
 
         def cleanup():
             mr.delay = None
-            try:
-                st.redis.connection_pool.disconnect()
-            except Exception:
-                pass
+            for st in made:
+                try:
+                    st.redis.connection_pool.disconnect()
+                except Exception:
+                    pass
             pb = prefix.encode()
             for k in [k for k in mr.db if k.startswith(pb)]:
                 del mr.db[k]
             del mr.log[:]
-        return st, cleanup, {'mr': mr}
+        return factory, cleanup, {'mr': mr}
     if fam in ('cloud-strict', 'cloud-lenient'):
         obj = MemObjectStore(lenient=(fam == 'cloud-lenient'))
-        mq = MemMsgQueue() if cfg.get('mq') else None
-        return CloudStorage(obj, mq), (lambda: None), {'obj': obj, 'mq': mq}
+        mq = MQ15(fail_queue=bool(case.get('mq_fail'))) if cfg.get('mq') else None
+        return (lambda: CloudStorage(obj, mq)), (lambda: None), {'obj': obj, 'mq': mq}
     raise ValueError(fam)
 
 
 def make_envelope(k, spec):
-    env = Envelope('s%d@sender.test' % k, ['r%d.%d@d%d.test' % (k, i, i) for i in range(spec['nrcpt'])])
-    hdr = b'Subject: m%d\r\nFrom: s%d@sender.test\r\n' % (k, k)
-    if spec['hdr8']:
-        hdr += b'X-Eight: caf\xc3\xa9\r\n'
-    body = (b'body %d \xff\x00\r\n' % k) + bytes(bytearray((i * 7 + k) % 256 for i in range(spec['size'])))
-    env.parse(hdr + b'\r\n' + body)
+    sk, rk, n = spec.get('sk', 'plain'), spec.get('rk', 'plain'), spec['nrcpt']
+    sender = {'plain': 's%d@sender.test' % k, 'null': '', 'utf8': u's\xe9nder%d@ex\xe4mple.test' % k}[sk]
+    if rk == 'dup':
+        rcpts = ['r%d.%d@d.test' % (k, (i * 7) % 2) for i in range(n)]       # two addresses, repeated
+    elif rk == 'utf8':
+        rcpts = [u'r\xe7pt%d.%d@b\xfccher%d.test' % (k, i, i) for i in range(n)]
+    else:
+        rcpts = ['r%d.%d@d%d.test' % (k, i, i) for i in range(n)]
+    env = Envelope(sender, rcpts)
+    if not spec.get('nomsg'):
+        hdr = b'Subject: m%d\r\nFrom: s%d@sender.test\r\n' % (k, k)
+        if spec['hdr8']:
+            hdr += b'X-Eight: caf\xc3\xa9\r\n'
+        body = (b'body %d \xff\x00\r\n' % k) + bytes(bytearray((i * 7 + k) % 256 for i in range(spec['size'])))
+        env.parse(hdr + b'\r\n' + body)
     env.receiver = 'me.test'
     env.timestamp = 1234567890.0 + k
     env.client = {'ip': '192.0.2.%d' % k, 'name': 'c.test'}
+    if spec.get('extra'):
+        env.client.update({'auth': None, 'protocol': u'ESMTPS\xe9', 'x-tuple': ('t', 1), 'x-bytes': b'\xff\x00'})
+        env.c15_custom = {'k': [1, 2, (3,)], 'b': b'\xff\x00', 'u': u' '}
     return env
+
+
+def content_of(env):
+    if env.message is None:
+        return None if env.headers is None else 'headers-without-message'
+    return b''.join(env.flatten())
+
+
+def odd_classes(spec):
+    out = []
+    if spec['nrcpt'] == 0:
+        out.append('no-recipients')
+    if spec['nrcpt'] >= 40:
+        out.append('many-recipients')
+    if spec.get('rk') == 'dup' and spec['nrcpt'] >= 3:
+        out.append('duplicate-recipients')
+    if spec.get('rk') == 'utf8' and spec['nrcpt']:
+        out.append('non-ascii-recipients')
+    if spec.get('sk') in ('null', 'utf8'):
+        out.append(spec['sk'] + '-sender')
+    if spec.get('nomsg'):
+        out.append('no-message')
+    if spec.get('extra'):
+        out.append('custom-attributes')
+    if spec['size'] >= 300000 and not spec.get('nomsg'):
+        out.append('300kB')
+    return out
 
 
 def norm(i):
@@ -301,6 +586,26 @@ def exc_name(e):
     return n
 
 
+def op_shape(op):
+    if op[0] == 'sload':
+        return ('sload', tuple(op_shape(o) for o in op[1]))
+    if op[0] == 'xop':
+        return ('xop', op[1], op[2])
+    if op[0] == 'deliv':
+        return ('deliv', op[1], op[4] if len(op) > 4 else 'list')
+    return (op[0],) + tuple(op[1:2])
+
+
+def flat_ops(ops):
+    for op in ops:
+        if op[0] == 'sload':
+            yield ['load']
+            for o in flat_ops(op[1]):
+                yield o
+        else:
+            yield op
+
+
 # ------------------------------------------------------------------ running one case
 
 class Lab(object):
@@ -312,18 +617,38 @@ class Lab(object):
         self.tick_n = 0
         self.inflight = {}
         self.msg = dict((k, {'id': None, 'raw_id': None, 'w': None, 'ts': [], 'rm': None, 'tainted': False,
-                             'failed_write': False})
+                             'failed_write': False, 'xops': [], 'attrs': None, 'last_obj': None,
+                             'reopened_since_write': False, 'odd': []})
                         for k in range(len(case['msgs'])))
         self.loads = []
         self.ids_seen = {}
         self.notif_maybe = 0
         self.order = []
         self.viol_in_case = 0
+        self.objs = []
+        self.picks = {}
+        self.unknown_xops = []
+        self.announced = []
+        self.has_chan = self.fam == 'redis' or (self.fam.startswith('cloud') and case['cfg'].get('mq'))
 
     # --- bookkeeping
     def tick(self):
         self.tick_n += 1
         return self.tick_n
+
+    def pick(self, ti):
+        """-> (object index, storage object) for the next call of track ti"""
+        if len(self.objs) == 1:
+            return 0, self.objs[0]
+        n = self.picks[ti] = self.picks.get(ti, 0) + 1
+        oi = random.Random('%s/%s/%s' % (self.case.get('obj_seed'), ti, n)).randrange(len(self.objs))
+        return oi, self.objs[oi]
+
+    def idarg(self, raw):
+        if self.case.get('bytes_ids') and isinstance(raw, str):
+            self.R.hit('bytes-id-calls/redis')
+            return raw.encode('ascii')
+        return raw
 
     def call(self, ti, name, fn, *a):
         """one backend call = one evaluation; logical start/end ticks; overlap bookkeeping"""
@@ -352,7 +677,8 @@ class Lab(object):
         if overlap_tag and self.mode == 'overlap':
             mech += '/overlapping'
         self.viol_in_case += 1
-        d = {'backend': self.fam, 'cfg': self.case['cfg'], 'mode': self.mode, 'op': op}
+        d = {'backend': self.fam, 'cfg': self.case['cfg'], 'mode': self.mode, 'op': op,
+             'two_objects': len(self.objs) > 1}
         d.update(detail)
         self.R.violation(mech, what, d)
         if k is not None:
@@ -366,26 +692,45 @@ class Lab(object):
     def do_write(self, ti, k, ts):
         spec = self.case['msgs'][k]
         env = make_envelope(k, spec)
-        content = b''.join(env.flatten())
+        content = content_of(env)
         sender, rcpts = env.sender, list(env.recipients)
+        attrs = {'client': dict(env.client), 'receiver': env.receiver, 'timestamp': env.timestamp}
         self.notif_maybe += 1
-        raw, exc, s, e, _ = self.call(ti, 'write', self.st.write, env, ts)
+        oi, st = self.pick(ti)
+        offered0, victim = SHIM.offered, None
+        if k in self.case.get('collide', ()) and self.mode == 'seq' and self.fam in COLLIDE_FAMS:
+            victims = [j for j in sorted(self.msg) if self.usable(j) and self.msg[j]['id'] in self.ref.m]
+            if victims:
+                victim = victims[0]
+                SHIM.forced = [self.msg[victim]['id']]
+        try:
+            raw, exc, s, e, _ = self.call(ti, 'write', st.write, env, ts)
+        finally:
+            SHIM.forced = []
+        collided = SHIM.offered > offered0
+        if collided:
+            self.R.hit('id-collision-offered/%s' % self.fam)
         m = self.msg[k]
         if exc is not None:
             m['failed_write'] = True
-            self.violation('write', 'raises-' + exc_name(exc), 'write raised %r' % exc, {'exc': repr(exc)[:300]})
+            self.violation('write', 'raises-' + exc_name(exc) + ('/collision-offered' if collided else ''),
+                           'write raised %r' % exc, {'exc': repr(exc)[:300]})
             return
         i = norm(raw)
         self.R.observe('id-type', (self.fam, 'write', type(raw).__name__))
         self.R.hit('distinct-id-judged/%s' % self.fam)
+        if self.case.get('mq_fail'):
+            self.R.hit('write-with-failing-message-queue/%s' % self.fam)
         if i in self.ids_seen:
-            self.violation('write', 'id-not-distinct', 'write returned an id handed out before: %r' % (raw,),
+            self.violation('write', 'id-not-distinct' + ('/collision-offered' if collided else ''),
+                           'write returned an id handed out before: %r' % (raw,),
                            {'id': i, 'earlier_message': self.ids_seen[i], 'this_message': k})
             m['tainted'] = True
             self.msg[self.ids_seen[i]]['tainted'] = True
         self.ids_seen.setdefault(i, k)
-        m.update(id=i, raw_id=raw, w=(s, e))
+        m.update(id=i, raw_id=raw, w=(s, e), attrs=attrs, last_obj=oi, odd=odd_classes(spec))
         m['ts'].append((ts, s, e))
+        self.R.count('timestamp-class/%s/%s' % (self.fam, ts_class(ts)))
         self.ref.write(i, sender, content, rcpts, ts)
 
     def do_get(self, ti, k, final=False):
@@ -394,7 +739,9 @@ class Lab(object):
             return
         m = self.msg[k]
         exp = self.ref.get(m['id'])
-        res, exc, _, _, _ = self.call(ti, 'get', self.st.get, m['raw_id'])
+        rounds = self.ref.m[m['id']]['rounds']
+        oi, st = self.pick(ti)
+        res, exc, _, _, _ = self.call(ti, 'get', st.get, self.idarg(m['raw_id']))
         if exc is not None:
             self.violation('get', 'raises-' + exc_name(exc), 'get of a live id raised %r' % exc,
                            {'exc': repr(exc)[:300], 'expected': exp[2:]}, k)
@@ -402,39 +749,91 @@ class Lab(object):
         self.R.hit('get-compared/%s' % self.fam)
         if final or len([x for x in self.msg.values() if x['id']]) > 1:
             self.R.hit('other-ids-undisturbed/%s' % self.fam)
+        if rounds >= 2:
+            self.R.hit('multi-round-get-compared/%s' % self.fam)
+        if m['reopened_since_write']:
+            self.R.hit('restart-get-compared/%s' % self.fam)
+        if m['last_obj'] != oi:
+            self.R.hit('two-objects-get-compared/%s' % self.fam)
+        for c in m['odd']:
+            self.R.hit('odd-envelope-compared/%s' % self.fam)
+            self.R.count('odd-envelope/%s/%s' % (self.fam, c))
         try:
             env, att = res
-            got = (env.sender, b''.join(env.flatten()), list(env.recipients), att)
+            got = (env.sender, content_of(env), list(env.recipients), att)
         except Exception as e2:
             self.violation('get', 'malformed-answer', 'get answered %r' % (res,), {'exc': repr(e2)}, k)
             return
         for idx, clause in ((0, 'sender-differs'), (1, 'content-differs'), (2, 'recipients-differ'),
                             (3, 'attempts-differ')):
             if got[idx] != exp[idx] or (idx == 3 and type(got[3]) is not int):
-                st = ''
+                st_ = ''
                 if idx == 2:
-                    st = '/after-delivered-marking' if self.ref.m[m['id']]['deliv'] else '/nothing-marked'
+                    st_ = ('/nothing-marked', '/after-delivered-marking',
+                           '/after-several-marking-rounds')[min(rounds, 2)]
                 if idx == 3:
-                    st = '/after-increment' if exp[3] else '/never-incremented'
-                self.violation('get', clause + st,
+                    st_ = '/after-increment' if exp[3] else '/never-incremented'
+                self.violation('get', clause + st_,
                                'get: %s: got %s, reference %s' % (clause, core.short(got[idx], 120),
                                                                   core.short(exp[idx], 120)),
-                               {'got': got[idx] if idx != 1 else got[idx][:200],
-                                'expected': exp[idx] if idx != 1 else exp[idx][:200], 'message': k}, k, True)
-                break
+                               {'got': got[idx] if idx != 1 else (got[idx] or b'')[:200],
+                                'expected': exp[idx] if idx != 1 else (exp[idx] or b'')[:200], 'message': k,
+                                'envelope_classes': m['odd'], 'marking_rounds': rounds}, k, True)
+                return
+        for a, want in sorted(m['attrs'].items()):
+            have = getattr(env, a, '<absent>')
+            if have != want:
+                self.violation('get', 'attribute-differs/' + a,
+                               'get: envelope.%s is %s, written %s' % (a, core.short(have, 120),
+                                                                       core.short(want, 120)),
+                               {'got': repr(have)[:300], 'expected': repr(want)[:300], 'message': k}, k, True)
+                return
+        if self.case['msgs'][k].get('extra'):
+            kept = getattr(env, 'c15_custom', None) == {'k': [1, 2, (3,)], 'b': b'\xff\x00', 'u': u' '}
+            self.R.count('custom-attr-%s/%s' % ('kept' if kept else 'lost', self.fam))
 
     def do_gone(self, ti, k):
         m = self.msg[k]
         if not self.usable(k):
             self.R.count('skipped-ops/%s' % self.fam)
             return
-        res, exc, _, _, _ = self.call(ti, 'get-after-remove', self.st.get, m['raw_id'])
+        oi, st = self.pick(ti)
+        res, exc, _, _, _ = self.call(ti, 'get-after-remove', st.get, self.idarg(m['raw_id']))
         self.R.hit('gone-judged/%s' % self.fam)
         if exc is None:
-            self.violation('get-after-remove', 'returns', 'get of a removed id returned %r' % (res,),
-                           {'answer': repr(res)[:200]}, k)
+            q = ''
+            if m['xops']:
+                q = '/after-%s-on-removed-id' % m['xops'][0][0]
+            self.violation('get-after-remove', 'returns' + q, 'get of a removed id returned %r' % (res,),
+                           {'answer': repr(res)[:200], 'ops_on_removed_id': [x[0] for x in m['xops']]}, k)
         else:
             self.R.observe('get-after-remove-exception', (self.fam, type(exc).__name__))
+
+    def do_xop(self, ti, name, target):
+        """an operation on a removed id (target = message index) or on an id no write returned"""
+        if target == 'unknown':
+            raw, tag = UNKNOWN_ID, 'unknown'
+        else:
+            m = self.msg[target]
+            if not self.usable(target) or m['id'] in self.ref.m:
+                self.R.count('skipped-ops/%s' % self.fam)
+                return
+            raw, tag = m['raw_id'], 'removed'
+        args = {'set_timestamp': (4242.5,), 'increment_attempts': (), 'set_recipients_delivered': ([0],),
+                'remove': (), 'get': ()}[name]
+        oi, st = self.pick(ti)
+        res, exc, s, e, _ = self.call(ti, '%s-on-%s-id' % (name, tag), getattr(st, name), self.idarg(raw), *args)
+        self.R.hit('op-on-%s-id/%s' % (tag, self.fam))
+        self.R.observe('op-on-gone-id-outcome', (self.fam, name, tag, type(exc).__name__ if exc else 'returns'))
+        if name == 'get':
+            if exc is None:
+                self.violation('get-unknown-id', 'returns', 'get of an id no write returned answered %r' % (res,),
+                               {'answer': repr(res)[:200]})
+            return
+        if target == 'unknown':
+            self.unknown_xops.append((name, s, e))
+        else:
+            self.msg[target]['xops'].append((name, s, e))
 
     def do_simple(self, ti, name, k, *args):
         """set_timestamp / increment_attempts / set_recipients_delivered / remove"""
@@ -446,17 +845,24 @@ class Lab(object):
         qual = ''
         if name == 'increment_attempts':
             qual = '/first-increment' if self.ref.m[i]['attempts'] == 0 else '/later-increment'
+        if name == 'set_recipients_delivered':
+            qual = '/%s-argument' % type(args[0]).__name__
+            if self.ref.m[i]['rounds']:
+                qual += '/later-round'
         if name == 'remove':
             m['rm'] = (self.tick_n + 1, None)
-        res, exc, s, e, _ = self.call(ti, name, getattr(self.st, name), m['raw_id'], *args)
+        oi, st = self.pick(ti)
+        res, exc, s, e, _ = self.call(ti, name, getattr(st, name), self.idarg(m['raw_id']), *args)
+        m['last_obj'] = oi
         if name == 'increment_attempts':
             self.R.hit('increment-judged/%s' % self.fam)
         if exc is not None:
             self.violation(name, 'raises-' + exc_name(exc) + qual, '%s on a live id raised %r' % (name, exc),
-                           {'exc': repr(exc)[:300], 'args': args, 'message': k}, k)
+                           {'exc': repr(exc)[:300], 'args': repr(args), 'message': k}, k)
             return
         if name == 'set_timestamp':
             m['ts'].append((args[0], s, e))
+            self.R.count('timestamp-class/%s/%s' % (self.fam, ts_class(args[0])))
             self.ref.set_timestamp(i, args[0])
         elif name == 'increment_attempts':
             exp = self.ref.increment_attempts(i)
@@ -465,15 +871,31 @@ class Lab(object):
                                'increment_attempts returned %r, reference %r' % (res, exp),
                                {'got': res, 'expected': exp, 'message': k}, k, True)
         elif name == 'set_recipients_delivered':
+            if isinstance(args[0], (set, frozenset)):
+                self.R.hit('set-arg-marking/%s' % self.fam)
             self.ref.set_recipients_delivered(i, args[0])
         elif name == 'remove':
             m['rm'] = (s, e)
             self.ref.remove(i)
 
-    def do_load(self, ti, final=''):
-        pend0 = self.notif_maybe
-        res, exc, s, e, rec = self.call(ti, 'load', lambda: list(self.st.load()))
+    def do_deliv(self, ti, op):
+        k = op[1]
+        if not self.usable(k):
+            self.R.count('skipped-ops/%s' % self.fam)
+            return
+        n = len(self.ref.left(self.msg[k]['id']))
+        cnt = int(op[2] * (n + 1))
+        prnd = random.Random(op[3])
+        idx = sorted(prnd.sample(range(n), min(cnt, n)))
+        if prnd.random() < 0.3:
+            idx.reverse()
+        arg = set(idx) if (len(op) > 4 and op[4] == 'set') else idx
+        self.do_simple(ti, 'set_recipients_delivered', k, arg)
+
+    def _record_load(self, res, exc, s, e, overl, final, pend0, stepped=False):
         self.R.hit('load-judged/%s' % self.fam)
+        if stepped:
+            self.R.hit('stepped-load-judged/%s' % self.fam)
         pending = pend0 > 0 or self.notif_maybe > 0
         if self.fam == 'redis':
             self.R.hit('load-with-notifications-pending/redis' if pending else 'load-after-drain/redis')
@@ -481,58 +903,202 @@ class Lab(object):
             qual = ''
             if self.fam == 'redis':
                 qual = '/notifications-pending' if pending else '/no-notifications'
+            if stepped:
+                qual += '/stepped'
             self.violation('load', 'raises-' + exc_name(exc) + qual, 'load raised %r' % exc,
                            {'exc': repr(exc)[:300], 'live_ids': len(self.ref.m)})
             return
-        self.loads.append({'s': s, 'e': e, 'res': res, 'overl': rec['overl'], 'final': final})
+        self.loads.append({'s': s, 'e': e, 'res': res, 'overl': overl, 'final': final, 'stepped': stepped})
 
-    def do_drain(self, ti):
-        st = self.st
+    def do_load(self, ti, final=''):
+        pend0 = self.notif_maybe
+        oi, st = self.pick(ti)
+        res, exc, s, e, rec = self.call(ti, 'load', lambda: list(st.load()))
+        self._record_load(res, exc, s, e, rec['overl'], final, pend0)
+
+    def do_sload(self, ti, nested):
+        """load() pulled item by item; one nested operation of the history runs after each item"""
+        pend0 = self.notif_maybe
+        oi, st = self.pick(ti)
+        pending = list(nested)
+        rec = {'overl': True, 'name': 'load'}
+        for o in self.inflight.values():
+            o['overl'] = True
+        self.inflight[id(rec)] = rec
+        self.order.append(ti)
+        s = self.tick()
+        res, exc = [], None
+        try:
+            it = iter(st.load())
+            while True:
+                try:
+                    item = next(it)
+                except StopIteration:
+                    break
+                res.append(item)
+                if pending:
+                    self.run_op(ti, pending.pop(0))
+        except Exception as e:
+            exc = e
+        finally:
+            self.inflight.pop(id(rec), None)
+        e_ = self.tick()
+        self.R.eval()
+        self.R.count('ops/%s' % self.fam)
+        self.R.count('op/%s/load-stepped' % self.fam)
+        self.R.count('nested-ops-inside-stepped-load/%s' % self.fam, len(nested) - len(pending))
+        self._record_load(res, exc, s, e_, True, '', pend0, stepped=True)
+        for op in pending:                      # the listing was shorter than the nest: run the rest after it
+            self.run_op(ti, op)
+
+    def do_drain(self, ti, full=False):
+        if self.fam == 'redis':
+            return self.do_drain_redis(ti)
+        mq = self.extra.get('mq')
+        if mq is None:
+            return
+        for _ in range(50 if full else 1):
+            oi, st = self.pick(ti)
+            got = []
+
+            def consume():
+                def body():
+                    for item in st.wait():
+                        got.append(item)
+                g = gevent.spawn(body)
+                for _ in range(200000):
+                    if g.ready() or mq.sleepers:
+                        break
+                    gevent.sleep(0)
+                else:
+                    g.kill()
+                    raise RuntimeError('harness: wait() consumer neither parked nor finished')
+                if not g.ready():
+                    g.kill()                  # parked in the message queue's sleep(): everything polled is consumed
+                elif not g.successful():
+                    raise g.exception
+            _, exc, s, e, _ = self.call(ti, 'wait', consume)
+            self.R.hit('wait-judged/%s' % self.fam)
+            if exc is not None:
+                if isinstance(exc, RuntimeError) and 'harness:' in str(exc):
+                    self.R.inconclusive('wait-consumer-state/%s' % self.fam)
+                    return
+                self.violation('wait', 'raises-' + exc_name(exc), 'wait raised %r' % exc, {'exc': repr(exc)[:300]})
+                return
+            self.note_announced(got, s, e)
+            self.R.count('notifications-drained/%s' % self.fam, len(got))
+            if not mq.msgs:
+                break
+
+    def do_drain_redis(self, ti):
+        oi, st = self.pick(ti)
         n, exc, _, _, _ = self.call(ti, 'llen(harness)', st.redis.llen, st.queue_key)
         if exc is not None:
             raise exc
-        got = []
         for _ in range(n):
-            res, exc, _, _, _ = self.call(ti, 'wait', st.wait)
+            res, exc, s, e, _ = self.call(ti, 'wait', st.wait)
+            self.R.hit('wait-judged/redis')
             if exc is not None:
                 self.violation('wait', 'raises-' + exc_name(exc), 'wait raised %r' % exc, {'exc': repr(exc)[:300]})
                 return
-            for ts, i in res:
-                got.append(i)
-                self.R.observe('id-type', (self.fam, 'wait', type(i).__name__))
+            try:
+                res = list(res)
+            except Exception as e2:
+                self.violation('wait', 'malformed-answer', 'wait answered %r' % (res,), {'exc': repr(e2)})
+                return
+            self.note_announced(res, s, e)
         self.notif_maybe -= n
         self.R.count('notifications-drained/redis', n)
 
+    def note_announced(self, items, s, e):
+        for item in items:
+            try:
+                ts, i = item
+                ts = float(ts)
+            except Exception:
+                self.violation('wait', 'malformed-item', 'wait yielded %r' % (item,), {'item': repr(item)})
+                continue
+            self.R.observe('id-type', (self.fam, 'wait', type(i).__name__))
+            self.announced.append((norm(i), ts, s, e))
+
+    def do_wait_ni(self, ti):
+        """backend without a notification channel: Queue._wait_store relies on NotImplementedError"""
+        oi, st = self.pick(ti)
+        res, exc, _, _, _ = self.call(ti, 'wait', lambda: list(itertools.islice(iter(st.wait()), 1)))
+        self.R.hit('wait-judged/%s' % self.fam)
+        if exc is None:
+            self.violation('wait', 'returns-without-notification-channel',
+                           'wait() of a backend without notifications answered %r instead of raising '
+                           'NotImplementedError' % (res,), {'answer': repr(res)[:200]})
+        elif not isinstance(exc, NotImplementedError):
+            self.violation('wait', 'raises-' + exc_name(exc) + '/without-notification-channel',
+                           'wait raised %r' % exc, {'exc': repr(exc)[:300]})
+
+    def do_info(self, ti):
+        oi, st = self.pick(ti)
+        res, exc, _, _, _ = self.call(ti, 'get_info', st.get_info)
+        self.R.observe('get-info-outcome', (self.fam, type(exc).__name__ if exc else 'returns'))
+        if self.fam not in DICT_FAMS:
+            return
+        if any(m['tainted'] or m['failed_write'] for m in self.msg.values()):
+            return
+        self.R.hit('get-info-judged/%s' % self.fam)
+        if exc is not None:
+            self.violation('get_info', 'raises-' + exc_name(exc), 'get_info raised %r' % exc, {'exc': repr(exc)})
+            return
+        try:
+            size = res['size']
+        except Exception:
+            size = None
+        if size != len(self.ref.m):
+            self.violation('get_info', 'size-differs', 'get_info answered %r with %d live messages'
+                           % (res, len(self.ref.m)), {'got': repr(res), 'live': len(self.ref.m)})
+
+    def do_reopen(self, ti):
+        self.objs = [self.factory() for _ in self.objs]
+        self.R.count('reopens/%s' % self.fam)
+        for m in self.msg.values():
+            if m['id'] is not None:
+                m['reopened_since_write'] = True
+            m['last_obj'] = None if len(self.objs) > 1 else 0
+
     # --- tracks
+    def run_op(self, ti, op):
+        name = op[0]
+        if name == 'write':
+            self.do_write(ti, op[1], op[2])
+        elif name == 'get':
+            self.do_get(ti, op[1])
+        elif name == 'gone':
+            self.do_gone(ti, op[1])
+        elif name == 'load':
+            self.do_load(ti)
+        elif name == 'sload':
+            self.do_sload(ti, op[1])
+        elif name == 'ts':
+            self.do_simple(ti, 'set_timestamp', op[1], op[2])
+        elif name == 'inc':
+            self.do_simple(ti, 'increment_attempts', op[1])
+        elif name == 'deliv':
+            self.do_deliv(ti, op)
+        elif name == 'remove':
+            self.do_simple(ti, 'remove', op[1])
+        elif name == 'xop':
+            self.do_xop(ti, op[1], op[2])
+        elif name == 'drain':
+            self.do_drain(ti)
+        elif name == 'wait-ni':
+            self.do_wait_ni(ti)
+        elif name == 'info':
+            self.do_info(ti)
+        elif name == 'reopen':
+            self.do_reopen(ti)
+        else:
+            raise ValueError(name)
+
     def run_track(self, ti, ops):
         for op in ops:
-            name = op[0]
-            if name == 'write':
-                self.do_write(ti, op[1], op[2])
-            elif name == 'get':
-                self.do_get(ti, op[1])
-            elif name == 'gone':
-                self.do_gone(ti, op[1])
-            elif name == 'load':
-                self.do_load(ti)
-            elif name == 'ts':
-                self.do_simple(ti, 'set_timestamp', op[1], op[2])
-            elif name == 'inc':
-                self.do_simple(ti, 'increment_attempts', op[1])
-            elif name == 'deliv':
-                n = self.case['msgs'][op[1]]['nrcpt']
-                cnt = int(op[2] * (n + 1))
-                prnd = random.Random(op[3])
-                idx = sorted(prnd.sample(range(n), min(cnt, n)))
-                if prnd.random() < 0.3:
-                    idx.reverse()
-                self.do_simple(ti, 'set_recipients_delivered', op[1], idx)
-            elif name == 'remove':
-                self.do_simple(ti, 'remove', op[1])
-            elif name == 'drain':
-                self.do_drain(ti)
-            else:
-                raise ValueError(name)
+            self.run_op(ti, op)
 
     def final_sweep(self):
         for k in sorted(self.msg):
@@ -543,10 +1109,44 @@ class Lab(object):
                 self.do_get(-1, k, final=True)
             else:
                 self.do_gone(-1, k)
+        self.do_xop(-1, 'get', 'unknown')
         self.do_load(-1, 'final')
-        if self.fam == 'redis':
-            self.do_drain(-1)
+        if self.has_chan:
+            self.do_drain(-1, full=True)
             self.do_load(-1, 'final-after-drain')
+        else:
+            self.do_wait_ni(-1)
+
+    # --- wait(): what was announced
+    def judge_announcements(self):
+        if not self.has_chan or any(m['failed_write'] for m in self.msg.values()):
+            return
+        if self.case.get('mq_fail'):
+            if self.announced:
+                self.violation('wait', 'announces-unknown-id', 'wait announced %r although every queue_message '
+                               'call was refused' % (self.announced[:2],), {'announced': len(self.announced)})
+            return
+        self.R.hit('announcements-judged/%s' % self.fam)
+        by_id = dict((m['id'], (k, m)) for k, m in self.msg.items() if m['id'] is not None)
+        seen = {}
+        for i, ts, s, e in self.announced:
+            if i not in by_id:
+                self.violation('wait', 'announces-unknown-id', 'wait announced %r which no write returned' % (i,),
+                               {'id': i, 'timestamp': ts})
+                continue
+            k, m = by_id[i]
+            seen[i] = seen.get(i, 0) + 1
+            if seen[i] == 2:
+                self.violation('wait', 'announces-id-twice', 'wait announced message %d twice' % k, {'message': k})
+            if ts != m['ts'][0][0]:
+                self.violation('wait', 'announces-other-timestamp',
+                               'wait announced message %d with timestamp %r, written with %r'
+                               % (k, ts, m['ts'][0][0]), {'message': k, 'got': ts, 'written': m['ts'][0][0]})
+        for i, (k, m) in by_id.items():
+            if i not in seen and not m['tainted']:
+                self.violation('wait', 'write-never-announced',
+                               'message %d was written but wait() never announced it (channel drained)' % k,
+                               {'message': k, 'announced': len(self.announced)})
 
     # --- the interval rule for load()
     def judge_loads(self):
@@ -577,7 +1177,16 @@ class Lab(object):
                 self.violation('load', 'lists-id-twice', 'load listed %r twice' % dup, {'id': dup}, None, True)
             for i, ts in listed.items():
                 if i not in by_id:
-                    if not any_failed_write:
+                    if i == UNKNOWN_ID:
+                        if any(xs < le and xe > ls for n, xs, xe in self.unknown_xops):
+                            self.R.count('transient-listing-during-op-on-gone-id/%s' % self.fam)
+                            continue
+                        before = sorted(set(n for n, xs, xe in self.unknown_xops if xs < le))
+                        self.violation('load', 'lists-unknown-id/after-%s-on-unknown-id'
+                                       % ('+'.join(before) or 'nothing'),
+                                       'load listed %r which no write returned' % i,
+                                       {'id': i, 'timestamp': ts, 'ops_on_it': before}, None, True)
+                    elif not any_failed_write:
                         self.violation('load', 'lists-unknown-id', 'load listed %r which no write returned' % i,
                                        {'id': i}, None, True)
                     continue
@@ -587,16 +1196,31 @@ class Lab(object):
                 rm = m['rm']
                 may = m['w'][0] < le and (rm is None or rm[1] is None or rm[1] > ls)
                 if not may:
-                    self.violation('load', 'lists-removed-id',
+                    if any(xs < le and xe > ls for n, xs, xe in m['xops']):
+                        # an operation on the removed id is in flight during this very load: the id may be
+                        # visible for that moment; it has to be gone once the operation has returned
+                        self.R.count('transient-listing-during-op-on-gone-id/%s' % self.fam)
+                        continue
+                    before = sorted(set(n for n, xs, xe in m['xops'] if xs < le))
+                    q = '/after-%s-on-removed-id' % '+'.join(before) if before else ''
+                    self.violation('load', 'lists-removed-id' + q,
                                    'load listed message %d (%s) after its removal had completed' % (k, i),
-                                   {'message': k, 'remove_ticks': rm, 'load_ticks': (ls, le)}, None, True)
+                                   {'message': k, 'remove_ticks': rm, 'load_ticks': (ls, le),
+                                    'ops_on_removed_id': before, 'timestamp': ts}, None, True)
                     continue
                 hist = m['ts']
                 ok = False
+                if ts == 4242.5 and any(xs < le and xe > ls for n, xs, xe in m['xops']):
+                    # the harness's marker value: set_timestamp on the removed id is in flight during this
+                    # load (which also overlapped the removal): see the transient rule below
+                    self.R.count('transient-listing-during-op-on-gone-id/%s' % self.fam)
+                    continue
                 for j, (v, vs, ve) in enumerate(hist):
                     nxt = hist[j + 1] if j + 1 < len(hist) else None
                     if v == ts and vs < le and (nxt is None or nxt[2] > ls):
                         ok = True
+                        if ts_class(v) != 'plain':
+                            self.R.hit('odd-timestamp-load-judged/%s' % self.fam)
                         break
                 if not ok:
                     ever = any(v == ts for v, _, _ in hist)
@@ -615,14 +1239,19 @@ class Lab(object):
                 rm = m['rm']
                 must = m['w'][1] < ls and (rm is None or rm[0] > le)
                 if must:
-                    self.violation('load', 'misses-live-id',
+                    q = '/after-restart' if m['reopened_since_write'] and not L['overl'] else ''
+                    self.violation('load', 'misses-live-id' + q,
                                    'load did not list live message %d (%s)' % (k, i),
                                    {'message': k, 'listed': sorted(listed), 'load_ticks': (ls, le),
                                     'write_ticks': m['w'], 'remove_ticks': rm}, None, True)
 
     def run(self):
-        self.st, cleanup, self.extra = make_backend(self.case)
+        self.factory, cleanup, self.extra = make_backend(self.case)
         try:
+            SHIM.rnd = random.Random('ids-%s' % self.case.get('obj_seed'))
+            self.objs = [self.factory()]
+            if self.case.get('two'):
+                self.objs.append(self.factory())
             tracks = self.case['tracks']
             glets = [gevent.spawn(self.run_track, ti, ops) for ti, ops in enumerate(tracks)]
             how, _ = core.watchdog_call(lambda: gevent.joinall(glets), 60)
@@ -638,7 +1267,10 @@ class Lab(object):
                 self.R.inconclusive('watchdog-final/%s/%s' % (self.fam, self.mode))
                 return
             self.judge_loads()
+            self.judge_announcements()
         finally:
+            SHIM.forced = []
+            SHIM.rnd = None
             cleanup()
 
 
@@ -648,7 +1280,7 @@ def is_nontrivial(case):
     nt = False
     for ops in case['tracks']:
         removed = False
-        for op in ops:
+        for op in flat_ops(ops):
             if op[0] == 'write':
                 written.add(op[1])
             elif op[0] == 'deliv':
@@ -665,8 +1297,9 @@ def is_nontrivial(case):
 def run_case(case, R):
     fam, mode = case['fam'], case['mode']
     R.count('cases/%s/%s' % (fam, mode))
-    shape = (fam, mode, tuple(tuple((op[0],) + tuple(op[1:2]) if op[0] != 'load' else ('load',)
-                                    for op in ops) for ops in case['tracks']))
+    if case.get('two'):
+        R.count('cases-two-objects/%s' % fam)
+    shape = (fam, mode, bool(case.get('two')), tuple(tuple(op_shape(op) for op in ops) for ops in case['tracks']))
     R.observe('history-shape/%s' % fam, shape)
     if is_nontrivial(case):
         R.nontrivial(shape)
